@@ -217,7 +217,7 @@ Proof. vm_compute. reflexivity. Qed.
    One Searcher, many searches: no state leaks from one search into the next
    (Model/SearcherGlue.v: Searcher::{search_slice, search_reader, search_file_maybe_path},
    LineBufferReader::new / LineBuffer::clear, fill_multi_line_buffer_from_{reader,file}) *)
-From RG Require Import Model.SearcherGlue Proofs.SearcherGlueProofs.
+From RG Require Import Model.SearcherGlue Proofs.SearcherGlueProofs Proofs.SearcherGluePinned.
 
 (* 9. ReadByLine::run from the buffer of a fresh Searcher is the model of items 4-8 *)
 Theorem read_by_line_run_is_from_new :
@@ -297,13 +297,14 @@ Print Assumptions search_reachable_independent.
 
 (* 13. one input, any way of reaching the Searcher — search_slice, search_reader (any read history),
        search_file with or without a memory map — any Searcher states: the same events, the same
-       result when not cut short; provided the configuration check passes (the multi-line branch of
-       search_file does not run it: witness below) and the transcoder is the identity on inputs
-       that search_slice searches untranscoded. *)
+       result when not cut short (the same configuration error, if the matcher's line terminator is
+       not the Searcher's), provided the transcoder is the identity on inputs that search_slice
+       searches untranscoded.  (Before repair e67305d of finding D22 the multi-line branch of
+       search_file did not check the configuration: pinned and refuted below.) *)
 Theorem strategy_independent_events :
   forall (cfg : config) (M : matcher), c_binary cfg = BNone -> (forall buf, find_spec cfg M buf) ->
   forall (enc_set bom_sniffing : bool) (decode : bytes -> bytes) (st1 st2 : searcher_state) (src1 src2 : source),
-    src_input src1 = src_input src2 -> src_ok src1 -> src_ok src2 -> check_config cfg M = true ->
+    src_input src1 = src_input src2 -> src_ok src1 -> src_ok src2 ->
     (needs_transcoding enc_set bom_sniffing (src_input src1) = false -> decode (src_input src1) = src_input src1) ->
     res_sim (fst (search cfg M enc_set bom_sniffing decode (fun _ => Continue) st1 src1))
             (fst (search cfg M enc_set bom_sniffing decode (fun _ => Continue) st2 src2)) /\
@@ -385,11 +386,21 @@ Example multi_line_buffer_append_refuted :                       (* buf.clear() 
      = RunOk [EBegin; EMatched 6 (Some 3) [97; 10; 98; 10]%N; EFinish 12 None].   (* offsets, line numbers, count off *)
 Proof. vm_compute. split; reflexivity. Qed.
 
-(* finding (confirmed on the crate: search_path without memory map, multi_line(true), a matcher whose
-   line_terminator() differs from the Searcher's and whose pattern can match "\n"): the multi-line
-   branch of search_file_maybe_path does not call check_config — search_slice, search_reader and
-   the memory-mapped file return the configuration error, the heap-read file is searched *)
-Example config_check_skipped_by_multi_line_file :
+(* finding D22 (confirmed on the crate; repaired in e67305d): before the repair the multi-line branch
+   of search_file_maybe_path did not call check_config.  With multi_line(true), no memory map, a
+   matcher whose line_terminator() differs from the Searcher's and whose pattern can match "\n",
+   search_slice, search_reader and the memory-mapped file returned the configuration error while
+   the heap-read file was searched.  The pre-repair entry point is pinned in
+   Proofs/SearcherGluePinned.v (search_file_m_pinned; it agrees with the repaired one whenever the
+   check passes: search_pinned_same); item 13 fails for it, and holds for the repaired model: *)
+Theorem search_pinned_same_when_config_ok :
+  forall cfg M enc_set bom_sniffing decode reply_of st src, check_config cfg M = true ->
+    search_pinned cfg M enc_set bom_sniffing decode reply_of st src
+    = search cfg M enc_set bom_sniffing decode reply_of st src.
+Proof. exact search_pinned_same. Qed.
+Print Assumptions search_pinned_same_when_config_ok.
+
+Example config_check_skipped_by_multi_line_file_pinned_refuted :
   let cfg := {| c_lt := LTByte 10; c_invert := false; c_after := 0; c_before := 0; c_passthru := false;
                 c_line_number := true; c_stop_on_nonmatch := false; c_binary := BNone; c_multi_line := true |} in
   let M0 := scripted cfg [ {| n_anch := false; n_bytes := [97; 10; 98]%N; n_real := true |} ] true 0%N in
@@ -397,9 +408,16 @@ Example config_check_skipped_by_multi_line_file :
               m_nonmatching := m_nonmatching M0; m_find_at := m_find_at M0 |} in
   let K := fun _ : nat => Continue in
   let f := [97; 10; 98; 10; 99; 10]%N in
+  let srcs := [SrcSlice f; SrcReader f []; SrcFile true f []; SrcFile false f []] in
   check_config cfg M = false
-  /\ fst (search_seq cfg M false false (fun b => b) (ss_new 1)
-            [(SrcSlice f, K); (SrcReader f [], K); (SrcFile true f [], K); (SrcFile false f [], K)])
+  /\ map (fun src => fst (search_pinned cfg M false false (fun b => b) K (ss_new 1) src)) srcs
      = [RunErr []; RunErr []; RunErr [];
-        RunOk [EBegin; EMatched 0 (Some 1) [97; 10; 98; 10]%N; EFinish 6 None]].
-Proof. vm_compute. split; reflexivity. Qed.
+        RunOk [EBegin; EMatched 0 (Some 1) [97; 10; 98; 10]%N; EFinish 6 None]]
+  /\ ~ res_sim (fst (search_pinned cfg M false false (fun b => b) K (ss_new 1) (SrcSlice f)))
+               (fst (search_pinned cfg M false false (fun b => b) K (ss_new 1) (SrcFile false f [])))
+  /\ map (fun src => fst (search cfg M false false (fun b => b) K (ss_new 1) src)) srcs
+     = [RunErr []; RunErr []; RunErr []; RunErr []].
+Proof.
+  vm_compute. split; [reflexivity|]. split; [reflexivity|]. split; [|reflexivity].
+  intros [H|(evs & n & m & H & _)]; discriminate.
+Qed.
